@@ -184,6 +184,13 @@ def trackedPart (t : Track) (n p : Nat) : Option TPart :=
   | none => none
   | some nd => IMap.get? nd.parts p
 
+/-- the tracked substates of a partition, empty when the partition is not tracked
+(`tracked_partition.map(..).unwrap_or(..)` / `if let Some(tracked_partition)`) -/
+def trackedOr (t : Track) (n p : Nat) : TPart :=
+  match trackedPart t n p with
+  | some part => part
+  | none => []
+
 def nodeIsNew (t : Track) (n : Nat) : Bool :=
   match IMap.get? t.nodes n with
   | none => false
@@ -210,7 +217,7 @@ def scanDbKeys (tracked : TPart) : Nat → List (Nat × Nat) → List Nat
 /-- `scan_keys` -/
 def scanKeys (t : Track) (n p limit : Nat) : Track × List Nat :=
   let isNew := nodeIsNew t n
-  let tracked : TPart := match trackedPart t n p with | some part => part | none => []
+  let tracked : TPart := trackedOr t n p
   let (items, rem) := scanTrackedKeys limit tracked
   if rem = 0 ∨ isNew then (t, items)
   else
@@ -261,7 +268,7 @@ def scanSortedSubstates (t : Track) (n p limit : Nat) : Track × List (Nat × Na
   let nodes' := ensurePart t.nodes n p
   let t' := { t with nodes := nodes' }
   let dbEntries : List (Nat × Nat) := if nodeIsNew t' n then [] else t.db (n, p)
-  let tracked : TPart := match trackedPart t' n p with | some part => part | none => []
+  let tracked : TPart := trackedOr t' n p
   let changes : List (Nat × Option Nat) := tracked.map (fun ktv => (ktv.1, ktv.2.get))
   (t', (overlayIter dbEntries changes).take limit)
 
